@@ -50,6 +50,10 @@ Fixpoint exec_loop (f1 : bool) (maxseq : Z) (held : list dblock) (processed : Z)
 
 Inductive reply := Announce (h : Z) | Request (last n : Z).
 
+(* What the node ACCEPTS from a message depends on nothing but the message and the
+   blocks it holds: no cut at its own GetBlocksRequestCount / MaxGetBlocksResponseCount
+   (reqn only appears inside the Request it sends), whatever the length of the message
+   and however many known blocks precede the new ones. *)
 Definition deliver (f1 : bool) (reqn : Z) (held : list dblock) (msg : list dblock)
   : list dblock * list reply :=
   let '(held', p) := exec_loop f1 (head_of held) held 0 msg in
